@@ -29,7 +29,9 @@ theorem expr_known : (e : Expr) → PT.expr e = true → PT.known (Expr.valueTyp
       simp only [Expr.valueType]
       match rets, h.2 with
       | [], _ => rfl
-      | [t], h2 => simpa [fnValueType] using h2
+      | [t], h2 =>
+        simp only [List.all_cons, List.all_nil, Bool.and_true] at h2
+        simpa [fnValueType] using basic_known h2
       | _ :: _ :: _, _ => rfl
   | .app _ _ _, _ => rfl
   | .sliceNew dt _, h => by
